@@ -63,7 +63,15 @@ def r7(ctx, cfg):
                 writers.add(f.key.split("::{closure")[0])
         ctx.ob(R, item[1], "writers", writers <= allowed and bool(writers), "%s is written by %s (unlisted: %s)" % (item[1], sorted(writers), sorted(writers - allowed)),
                sample=str(sorted(w.rsplit("::", 1)[-1] for w in writers)))
-    q.who_may_call(ctx, R, F, SK + "update_stake", {SK + "add_stake", SK + "remove_stake"}, "stake changes go through add_stake / remove_stake (denomination check)")
+    def behind_the_check(caller):
+        # a message arm may change the stake itself when the coin it takes the amount from has passed the denomination check
+        g0 = F.fn(caller)
+        if g0 is None or caller != EXEC:
+            return False
+        sites = [ch for arm in ("Delegate", "Undelegate", "Redelegate") for ch in stake_changes(P, g0, arm) if ch["key"] == SK + "update_stake"]
+        return bool(sites) and all(ch["checked"] and ch["kind"] != "?" for ch in sites) and len(sites) == len(q.calls(g0, SK + "update_stake"))
+    q.who_may_call(ctx, R, F, SK + "update_stake", {SK + "add_stake", SK + "remove_stake"}, "stake changes go through add_stake / remove_stake (denomination check)",
+                   accept=behind_the_check)
     q.who_may_call(ctx, R, F, SK + "slash", {"<staking::StakeKeeper as module::Module>::sudo"}, "slashing comes from StakingSudo::Slash only")
 
 
@@ -255,6 +263,10 @@ def r1(ctx, cfg, R="C14.R1"):
             existed = existed or any(u.form == "load-save" and u.site == (f.key, bid) for u in stakes.entry_updates(P, F, f))
             ins = {b for b, tt in staker_set_calls(P, f, ("insert",))}
             saves = {b for b, tt in store_calls(P, f, VINFO, ("save",))}
+            # (`if !stakers.contains(d) { stakers.insert(d.clone()) }`: on the other side of that test the delegator is in the set already)
+            member = {te for b0, pred, args0, te, fe in q.guards(P, f) if pred == "contains" and te is not None and len(args0) == 2 and
+                      contains(args0[0], lambda x: x[0] == "field" and x[2] == "stakers") and ins}
+            ins = ins | member
             paired = bool(ins) and not any(r in cf.reachable_from(bid, avoid=list(ins | errs)) for r in cf.return_blocks()) and \
                 all(not any(r in cf.reachable_from(ib, avoid=list(saves | errs)) for r in cf.return_blocks()) for ib in ins)
             ctx.ob(R, root, "stakes-save-paired-with-staker-insert#%d" % idx, existed or paired,
@@ -267,6 +279,20 @@ def r1(ctx, cfg, R="C14.R1"):
     ctx.ob(R, "-", "floor:functions-removing-delegations", want <= rm_roots, "STAKES.remove expected in %s, found in %s" % (sorted(want), sorted(rm_roots)),
            sample=str(sorted(x.rsplit("::", 1)[1] for x in rm_roots)))
     ctx.floor(R, "STAKES.save sites", n_sv, 2)
+
+
+def vinfo_source(y, key_pred=None):
+    """the call origin `y` yields the record stored for a validator in VALIDATOR_INFO: a lookup of the map under that key, or
+    `update_rewards(.., validator)` where that function hands back the record it has just brought up to date and stored
+    (C15.R8 decides that it does, whenever it returns one)"""
+    y = peel(y)
+    if y[0] != "call":
+        return False
+    if y[1] in ("cw_storage_plus::Map::may_load", "cw_storage_plus::Map::load") and y[2] and peel(y[2][0]) == VINFO:
+        return key_pred is None or key_pred(y[2][2])
+    if y[1] == SK + "update_rewards" and len(y[2]) == 4:
+        return key_pred is None or key_pred(y[2][3])
+    return False
 
 
 PANICKY = {"std::option::Option::unwrap", "std::option::Option::expect", "std::result::Result::unwrap", "std::result::Result::expect",
@@ -390,6 +416,44 @@ def _arm(P, f, bid, pname="msg"):
     return arms[0] if arms else ""
 
 
+def _succ_dom_site(P, f, node, block):
+    """`node` is reached only after the call that ends `block` has succeeded (`f(..)?` continued)"""
+    return any(c[0] == "variant_in" and c[2] in (("Continue",), ("Ok",)) and peel(c[1])[0] == "call" and len(peel(c[1])) > 4 and peel(c[1])[4] and
+               peel(c[1])[4][1] == block for e, c in q.dominating_conditions(P, f, node))
+
+
+def stake_changes(P, f, arm):
+    """the changes of delegated stake a message arm makes, whatever they are made with: `add_stake` / `remove_stake` (which check
+    the coin's denomination themselves) or `update_stake(.., coin.amount, sub)` behind a successful denomination check of that very
+    coin (`validate_denom(coin)?`, or an earlier add_stake / remove_stake of it): [dict(kind 'add'|'remove'|'?', block, call, who,
+    validator, coin (the Coin origin, None when the amount is not a coin's amount), checked)]"""
+    out = []
+    for b, t in f.calls():
+        k = t["callee"]["key"]
+        if k not in (SK + "add_stake", SK + "remove_stake", SK + "update_stake") or _arm(P, f, b) != arm:
+            continue
+        a = P.call_args(f, t, b)
+        if k == SK + "update_stake":
+            sub = peel(a[7]) if len(a) > 7 else ("?",)
+            kind = ("remove" if sub[2] else "add") if sub[0] == "const" and sub[1] == "bool" else "?"
+            am = peel(a[6])
+            coin = am[1] if am[0] == "field" and am[2] == "amount" else None
+            checked = False
+            if coin is not None:
+                for e, c in q.dominating_conditions(P, f, b):
+                    if c[0] == "variant_in" and c[2] in (("Continue",), ("Ok",)) and peel(c[1])[0] == "call":
+                        cc = peel(c[1])
+                        if cc[1] == SK + "validate_denom" and same_origin(peel(cc[2][-1]), peel(coin)):
+                            checked = True
+                        if cc[1] in (SK + "add_stake", SK + "remove_stake") and same_origin(peel(cc[2][6]), peel(coin)):
+                            checked = True
+        else:
+            kind = "add" if k.endswith("add_stake") else "remove"
+            coin, checked = a[6], True
+        out.append(dict(kind=kind, block=b, call=t, who=a[4], validator=a[5], coin=coin, checked=checked, key=k))
+    return out
+
+
 def _succ_dom(P, f, node, callee_key):
     return any(c[0] == "variant_in" and c[2] in (("Continue",), ("Ok",)) and peel(c[1])[0] == "call" and peel(c[1])[1] == callee_key
                for e, c in q.dominating_conditions(P, f, node))
@@ -401,8 +465,13 @@ def r3(ctx, cfg):
     f = ctx.need_fn(R, EXEC)
     if f is not None:
         for callee, arm in ((SK + "add_stake", "Delegate"), (SK + "remove_stake", "Undelegate")):
-            sites = [(b, t) for b, t in q.calls(f, callee) if _arm(P, f, b) == arm]
-            ctx.ob(R, EXEC, "%s-site" % arm, len(sites) == 1, "expected one %s in the %s arm" % (callee, arm), fn=f, sample="1")
+            want_kind = "add" if arm == "Delegate" else "remove"
+            chs = stake_changes(P, f, arm)
+            sites = [(ch["block"], ch["call"]) for ch in chs]
+            ctx.ob(R, EXEC, "%s-site" % arm, len(chs) == 1 and chs[0]["kind"] == want_kind and chs[0]["checked"],
+                   "expected one %s (or update_stake behind the denomination check) in the %s arm" % (callee, arm), fn=f, sample="1")
+            if not (len(chs) == 1 and chs[0]["kind"] == want_kind and chs[0]["checked"]):
+                continue
             for bid, t in sites:
                 conds = q.dominating_conditions(P, f, bid)
                 ok = q.has_cond(conds, "is_zero", pol=False, arg_pred=lambda a: contains(a[0], lambda x: x[0] == "field" and x[2] == "amount" and
@@ -410,18 +479,23 @@ def r3(ctx, cfg):
                 ctx.ob(R, EXEC, "%s-zero-amount-rejected" % arm, ok, "%s proceeds with a zero amount" % arm, fn=f, line=t["line"], sample="guard: !amount.amount.is_zero()")
                 # "delegating or undelegating zero ... fails": no success result of the arm without the amount having been
                 # found non-zero and the stake change having succeeded (a shortcut `return Ok(..)` in front of the guard)
-                def holds(conds, callee=callee):
-                    return q.succeeded(conds, callee) and q.has_cond(conds, "is_zero", pol=False, arg_pred=lambda a: contains(
+                def holds(conds, callee=callee, bid=bid):
+                    return any(c[0] == "variant_in" and c[2] in (("Continue",), ("Ok",)) and peel(c[1])[0] == "call" and len(peel(c[1])) > 4 and peel(c[1])[4] and
+                               peel(c[1])[4][1] == bid for e, c in conds) and q.has_cond(conds, "is_zero", pol=False, arg_pred=lambda a: contains(
                         a[0], lambda x: x[0] == "field" and x[2] == "amount" and contains(x[1], lambda y: is_param_field(y, "msg", "amount"))))
                 out = q.successes_outside(P, f, holds, only=lambda b, arm=arm: _arm(P, f, b) == arm)
                 ctx.ob(R, EXEC, "%s-succeeds-only-with-positive-amount-and-stake-change" % arm, not out,
                        "the %s arm can produce a success at block(s) %s without `!amount.is_zero()` and a successful %s" % (arm, out, callee.rsplit("::", 1)[1]),
                        fn=f, sample="every non-Err result of the arm dominated by the guard and Continue(%s)" % callee.rsplit("::", 1)[1])
-        rs = [(b, t) for b, t in q.calls(f, SK + "remove_stake") if _arm(P, f, b) == "Redelegate"]
-        as_ = [(b, t) for b, t in q.calls(f, SK + "add_stake") if _arm(P, f, b) == "Redelegate"]
-        if len(rs) == 1 and len(as_) == 1:
-            out = q.successes_outside(P, f, lambda conds: q.succeeded(conds, SK + "remove_stake") and q.succeeded(conds, SK + "add_stake"),
-                                      only=lambda b: _arm(P, f, b) == "Redelegate")
+        chs = stake_changes(P, f, "Redelegate")
+        rs = [(ch["block"], ch["call"]) for ch in chs if ch["kind"] == "remove" and ch["checked"]]
+        as_ = [(ch["block"], ch["call"]) for ch in chs if ch["kind"] == "add" and ch["checked"]]
+        if len(rs) == 1 and len(as_) == 1 and len(chs) == 2:
+            def both(conds, rb=rs[0][0], ab=as_[0][0]):
+                done = {peel(c[1])[4][1] for e, c in conds if c[0] == "variant_in" and c[2] in (("Continue",), ("Ok",)) and peel(c[1])[0] == "call" and
+                        len(peel(c[1])) > 4 and peel(c[1])[4]}
+                return rb in done and ab in done
+            out = q.successes_outside(P, f, both, only=lambda b: _arm(P, f, b) == "Redelegate")
             ctx.ob(R, EXEC, "Redelegate-succeeds-only-after-both-stake-changes", not out,
                    "the Redelegate arm can produce a success at block(s) %s without remove_stake and add_stake having succeeded" % out, fn=f,
                    sample="every non-Err result of the arm dominated by Continue(remove_stake) and Continue(add_stake)")
@@ -547,13 +621,15 @@ def r4(ctx, cfg, R="C14.R4", parts=("Delegate", "Undelegate", "Redelegate")):
                            sample="Ok dominated by Continue(router.execute)")
     if "Undelegate" in parts:
         # Undelegate
-        rems = [(b, t) for b, t in q.calls(f, SK + "remove_stake") if _arm(P, f, b) == "Undelegate"]
-        ok = len(rems) == 1
+        chs = stake_changes(P, f, "Undelegate")
+        ok = len(chs) == 1 and chs[0]["kind"] == "remove" and chs[0]["checked"]
         ctx.ob(R, EXEC, "Undelegate-shape", ok, "Undelegate must remove stake once", fn=f, sample="1")
         if ok:
-            a = P.call_args(f, rems[0][1], rems[0][0])
-            ctx.ob(R, EXEC, "Undelegate-remove_stake(sender, validator, amount)", is_param(a[4], "sender") and msgf(a[5], "validator") and msgf(a[6], "amount"),
-                   "remove_stake(%s, %s, %s)" % (fmt(a[4]), fmt(a[5])[:40], fmt(a[6])[:40]), fn=f, sample="(&sender, &validator, amount)")
+            rems = [(chs[0]["block"], chs[0]["call"])]
+            ch = chs[0]
+            ctx.ob(R, EXEC, "Undelegate-remove_stake(sender, validator, amount)", is_param(ch["who"], "sender") and msgf(ch["validator"], "validator") and
+                   ch["coin"] is not None and msgf(ch["coin"], "amount"),
+                   "remove_stake(%s, %s, %s)" % (fmt(ch["who"]), fmt(ch["validator"])[:40], fmt(ch["coin"])[:40] if ch["coin"] else "?"), fn=f, sample="(&sender, &validator, amount)")
             ubs = [(b, i, st) for b, i, st in f.stmts() if st["k"] == "assign" and st["rv"].get("k") == "aggregate" and st["rv"].get("adt") == "staking::Unbonding"]
             ok = len(ubs) == 1
             if ok:
@@ -564,7 +640,7 @@ def r4(ctx, cfg, R="C14.R4", parts=("Delegate", "Undelegate", "Redelegate")):
                     pa[0] == "call" and pa[1].endswith("Timestamp::plus_seconds") and \
                     peel(pa[2][0])[0] == "field" and peel(pa[2][0])[2] == "time" and is_param(peel(pa[2][0])[1], "block") and \
                     peel(pa[2][1])[0] == "field" and peel(pa[2][1])[2] == "unbonding_time"   # (exactly these two, nothing computed from them)
-                ok = ok and _succ_dom(P, f, b, SK + "remove_stake")
+                ok = ok and _succ_dom_site(P, f, b, rems[0][0])
             ctx.ob(R, EXEC, "Undelegate-queue-entry(sender, validator, amount, block.time+unbonding_time)", ok, "unbonding entry is not (sender, validator, amount.amount, block.time + unbonding_time) after remove_stake",
                    fn=f, sample="Unbonding{delegator: sender, validator, amount: amount.amount, payout_at: block.time + unbonding_time}")
             pb = [(b, t) for b, t in f.calls() if t["callee"]["key"].endswith("VecDeque::push_back")]
@@ -577,14 +653,15 @@ def r4(ctx, cfg, R="C14.R4", parts=("Delegate", "Undelegate", "Redelegate")):
                    sample="queue.push_back(entry); UNBONDING_QUEUE.save(queue)")
     if "Redelegate" in parts:
         # Redelegate
-        rems = [(b, t) for b, t in q.calls(f, SK + "remove_stake") if _arm(P, f, b) == "Redelegate"]
-        adds = [(b, t) for b, t in q.calls(f, SK + "add_stake") if _arm(P, f, b) == "Redelegate"]
-        ok = len(rems) == 1 and len(adds) == 1
+        chs = stake_changes(P, f, "Redelegate")
+        rems = [ch for ch in chs if ch["kind"] == "remove" and ch["checked"]]
+        adds = [ch for ch in chs if ch["kind"] == "add" and ch["checked"]]
+        ok = len(rems) == 1 and len(adds) == 1 and len(chs) == 2
         ctx.ob(R, EXEC, "Redelegate-shape", ok, "Redelegate must remove once and add once", fn=f, sample="1/1")
         if ok:
-            ra, aa = P.call_args(f, rems[0][1], rems[0][0]), P.call_args(f, adds[0][1], adds[0][0])
-            ok = is_param(ra[4], "sender") and is_param(aa[4], "sender") and msgf(ra[5], "src_validator") and msgf(aa[5], "dst_validator") and \
-                msgf(ra[6], "amount") and msgf(aa[6], "amount") and _succ_dom(P, f, adds[0][0], SK + "remove_stake")
+            r0, a0 = rems[0], adds[0]
+            ok = is_param(r0["who"], "sender") and is_param(a0["who"], "sender") and msgf(r0["validator"], "src_validator") and msgf(a0["validator"], "dst_validator") and \
+                r0["coin"] is not None and a0["coin"] is not None and msgf(r0["coin"], "amount") and msgf(a0["coin"], "amount") and _succ_dom_site(P, f, a0["block"], r0["block"])
             ctx.ob(R, EXEC, "Redelegate(src -> dst, same amount, remove first)", ok, "Redelegate does not move the same amount from src to dst after a successful removal", fn=f,
                    sample="remove_stake(src, amount)? then add_stake(dst, amount)")
 
@@ -856,7 +933,7 @@ def r8(ctx, cfg):
     def target(o):
         if contains(o, lambda x: x == ("item", "staking::STAKES")):
             return "entry.stake"
-        if contains(o, lambda x: x == ("item", "staking::VALIDATOR_INFO")):
+        if contains(o, lambda x: x == ("item", "staking::VALIDATOR_INFO")) or contains(o, lambda x: vinfo_source(x)):
             return "validator.stake"
         return None
 
